@@ -14,15 +14,18 @@
    Part C                  refutation witnesses: the genuine defects of the current code the model mirrors.
    Tie to the code: K_parse / K_text / K_pyast / K_tie / K_code / K_eval of harness/props/C01.py.
    Trusted, only observed through K_pyast / K_eval: CPython's reading and evaluation of the generated code text.  The model
-   reads the SCRIPT's tokens with Python's precedences (C01_print_parse: for every tree, its minimally parenthesised print
-   is read back as that tree) and accepts a script only when every statement is read back identically from its CODE text by
+   reads the SCRIPT's tokens with Python's precedences (C01_print_parse: for every ARITHMETIC tree — literals, series, + - * / **, unary minus,
+   abs, max, min, np.exp, np.log; conditional expressions EIf are NOT covered: the precedence of comparisons / not / and / or /
+   if-else rests on the instance C01_conditional_instance, the fuel and reads theorems of the p_test layer, and K_pyast — its
+   minimally parenthesised print is read back as that tree) and accepts a script only when every statement is read back identically from its CODE text by
    the model's own code lexer (C01_accepted_script_is_read_back_from_its_code; C01_code_statement_tie: every statement
    whose items are `tight`, a local decidable condition, is — the token-wise rendering provably preserves it); that CPython reads the code text as that
    lexer + parser do is checked case by case against its `ast`.  NumPy float64 arithmetic = the kernel's binary64, libm
    exp / log / ** (oracle table).
    Reading guide: theorems whose statement merely unfolds a definition of the model (C01_template_is_normalised_items,
-   C01_format_fills_positionally, the `*_instance` / `*_refuted` witnesses, the fuel lemmas) establish no clause of the
-   property by themselves; the clauses are carried by  C01_generated_code_is_rendered_statement /
+   C01_format_fills_positionally, C01_pass_gauss_seidel, C01_pass_is_gauss_seidel_fold, C01_statement_effect,
+   C01_code_agrees_sound / _complete, the `*_instance` / `*_refuted` witnesses, the fuel lemmas) establish no clause of the
+   property by themselves; C01_code_statement_tie ties the code text to the MODEL's code lexer (lex_code), not to CPython; the clauses are carried by  C01_generated_code_is_rendered_statement /
    C01_endogenous_symbols_carry_the_rendered_statement (what the text is),  C01_scan_render and Part A2 (how it is lexed),
    C01_reads_exactly_the_written_terms, C01_print_parse (what a statement denotes),
    C01_statements_in_symbol_order, C01_pass_* , C01_feasible_period_reads_at_written_offsets (what a pass does).
@@ -31,7 +34,10 @@
    claim for an unknown statement would be an assumption, not a theorem); K_text / K_parse / K_code still cover such scripts
    statement by statement.  (b) `aligned` (no term match spanning the first `=`) is a guard of the text-level theorem only;
    its failure (`Y[a=b] = X`, C01_match_spanning_equals_refuted) makes parse_equation fail or produce symbols no model
-   evaluates, and is not recorded as a finding of C01.  (c) in the well-formed token lists of Part A2 the comparisons
+   evaluates, and is not recorded as a finding of C01.  (d) the semantic theorems speak about scripts every statement of which is ONE assignment
+   of the subset: parse_model also accepts `Y = Z = X`, `Y = X; Z = 1`, `Y == X`, `Z = (yield)`, `Y = np .sqrt(X)` and rewrites a
+   name inside a quoted string — all outside program_of_script, all kept findings with `_refuted` witnesses (Part C) and an
+   oracle clause on CPython's ast of the real code.  (c) in the well-formed token lists of Part A2 the comparisons
    `<` / `<=` are the token SLt, whose side condition is that no <error> term starts there (C01_lex_less_than). *)
 From Coq Require Import String Ascii List Bool Arith ZArith PrimFloat.
 Import ListNotations.
@@ -91,10 +97,11 @@ Theorem C01_model_code_provenance chk cs script syms x c :
   exists st L y, In st (fst (split_M script)) /\ parse_equation_M st = POk L /\ In y L /\ scode y = Some c.
 Proof. exact (model_code_provenance chk cs script syms x c). Qed.
 Print Assumptions C01_model_code_provenance.
-(* … so it IS the rendering of that statement whenever the statement meets the guard of the text-level theorem *)
+(* … so it IS the rendering of THE statement it came from (the one whose parse_equation result carries it — not just some
+   statement of the script) whenever that statement meets the guard of the text-level theorem *)
 Theorem C01_model_code_is_rendered_statement chk cs script syms x c :
   parse_model_M chk cs script = POk syms -> In x syms -> scode x = Some c ->
-  exists st, In st (fst (split_M script)) /\
+  exists st L y, In st (fst (split_M script)) /\ parse_equation_M st = POk L /\ In y L /\ scode y = Some c /\
     (is_blank st = false -> head_is "`" st && last_is "`" st = false -> aligned st -> gaps_brace_free (scan_items st) = true ->
      code_text st = Some c).
 Proof. exact (model_code_is_rendered_statement chk cs script syms x c). Qed.
@@ -500,13 +507,23 @@ Proof. exact (conj (pr_neg_pow nm a b) (conj (pr_pow_neg_base nm a b) (conj (pr_
 Print Assumptions C01_shape_power_and_unary_minus.
 
 (* operations CPython performs on Python numbers with another outcome than the float operation (division by a literal zero:
-   ZeroDivisionError; a power of two literals: OverflowError, complex or a huge int) are outside the subset: every accepted
-   statement is py_ok — no division whose operands may both be Python numbers unless the divisor is a non-zero literal, no power
-   whose operands may both be Python numbers *)
+   ZeroDivisionError; a power of two literals: OverflowError, complex or a huge int; an integer literal no float can hold:
+   OverflowError; + - * or a comparison of Python ints beyond 2^53: exact instead of rounded) are outside the subset: every
+   accepted statement is py_ok — no division whose operands may both be Python numbers unless the divisor is a literal with a
+   non-zero digit among its first 300 characters, no power whose operands may both be Python numbers, no integer literal of more
+   than 300 digits, no + - * / comparison of two Python-int expressions that fold_ints left unfolded (C01_python_number_holes) *)
 Theorem C01_accepted_statement_has_no_python_number_trap row ts y i k0 e :
   stmt_of_tokens row ts = Some (y, SAssign i k0 e) -> py_ok e = true.
 Proof. exact (stmt_of_tokens_py_ok row ts y i k0 e). Qed.
 Print Assumptions C01_accepted_statement_has_no_python_number_trap.
+Theorem C01_python_number_holes :
+  stmt_of_equation (row_of ["Y"; "X"]) "Y = X + 9007199254740993 * 3" = None /\
+  stmt_of_equation (row_of ["Y"; "X"]) "Y = X + 3 * 3" = Some ("Y", SAssign 0 0%Z (EBin OAdd (ERead 1 0%Z) (ENum "9"))) /\
+  py_ok (EBin OMul (ERead 1 0%Z) (ENum (String "1" (string_of_list_ascii (repeat "0"%char 400))))) = false /\
+  py_ok (EBin ODiv (ENum "1") (ENum (String "0" (String "." (string_of_list_ascii (repeat "0"%char 400 ++ ["1"%char])))))) = false /\
+  py_ok (EBin ODiv (ENum "1") (ENum "0.001")) = true.
+Proof. exact python_number_holes. Qed.
+Print Assumptions C01_python_number_holes.
 Theorem C01_python_number_instance :
   stmt_of_equation (row_of ["Y"; "X"]) "Y = X * (1/0)" = None /\
   stmt_of_equation (row_of ["Y"; "X"]) "Y = X + (-8) ** 0.5" = None /\
@@ -894,6 +911,38 @@ Theorem C01_keyword_fused_with_term_refuted :
     = Some ("Y", SAssign 0 0%Z (EIf CGt (ERead 1 0%Z) (ENum "0") (ENum "2") (ENum "1"))).
 Proof. exact keyword_fused_with_term_refuted. Qed.
 Print Assumptions C01_keyword_fused_with_term_refuted.
+
+(* NEW (review 2): accepted statements that are not ONE assignment to the left-hand cell — a chained assignment or a second
+   statement after `;` writes a variable classified EXOGENOUS; a comparison `Y == X` has an `=` and makes Y ENDOGENOUS while
+   nothing is assigned; a `yield` turns _evaluate into a generator function (no equation runs); a blank inside a dotted
+   function name makes its first part a series.  All pass parse_model's syntax check; all are outside the subset. *)
+Theorem C01_chained_assignment_refuted :
+  (exists syms, parse_model_nocheck "Y = Z = X" = POk syms /\
+     map sym_view syms = [(Some "Y", TEndogenous, Some "self._Y[t] = self._Z[t] = self._X[t]"); (Some "Z", TExogenous, None); (Some "X", TExogenous, None)]) /\
+  (exists syms, parse_model_nocheck "Y = X; Z = 1" = POk syms /\
+     map sym_view syms = [(Some "Y", TEndogenous, Some "self._Y[t] = self._X[t]; self._Z[t] = 1"); (Some "X", TExogenous, None); (Some "Z", TExogenous, None)]) /\
+  program_of_script "Y = Z = X" = None /\ program_of_script "Y = X; Z = 1" = None.
+Proof. exact chained_assignment_refuted. Qed.
+Print Assumptions C01_chained_assignment_refuted.
+Theorem C01_comparison_statement_refuted :
+  (exists syms, parse_model_nocheck "Y == X" = POk syms /\
+     map sym_view syms = [(Some "Y", TEndogenous, Some "self._Y[t] == self._X[t]"); (Some "X", TExogenous, None)]) /\
+  program_of_script "Y == X" = None.
+Proof. exact comparison_statement_refuted. Qed.
+Print Assumptions C01_comparison_statement_refuted.
+Theorem C01_yield_statement_refuted :
+  (exists syms, parse_model_nocheck ("Z = (yield)" ++ lf ++ "Y = X") = POk syms /\
+     map sym_view (filter emits syms) = [(Some "Z", TEndogenous, Some "self._Z[t] = (yield)"); (Some "Y", TEndogenous, Some "self._Y[t] = self._X[t]")]) /\
+  program_of_script ("Z = (yield)" ++ lf ++ "Y = X") = None.
+Proof. exact yield_statement_refuted. Qed.
+Print Assumptions C01_yield_statement_refuted.
+Theorem C01_blank_in_dotted_name_refuted :
+  (exists syms, parse_model_nocheck "Y = np .sqrt(X)" = POk syms /\
+     map sym_view syms = [(Some "Y", TEndogenous, Some "self._Y[t] = self._np[t] .sqrt(self._X[t])"); (Some "np", TExogenous, None);
+                          (Some "sqrt", TFunction, None); (Some "X", TExogenous, None)]) /\
+  code_text "Y = np.sqrt(X)" = Some "self._Y[t] = np.sqrt(self._X[t])" /\ program_of_script "Y = np .sqrt(X)" = None.
+Proof. exact blank_in_dotted_name_refuted. Qed.
+Print Assumptions C01_blank_in_dotted_name_refuted.
 
 (* `Y[a=b] = X` — a match spanning the first `=`: terms and placeholders no longer correspond *)
 Theorem C01_match_spanning_equals_refuted :
